@@ -2427,12 +2427,11 @@ def compare_named(a, b, only=None):
                     part = next(k for k in ea if ea[k] != eb[k])
                     return {"at": n, "what": f"{n} -> {ta['dst']}: different {part}", "when": [f"{show(x)} is {y}" for x, y in ta["key"]],
                             "left": ea[part], "right": eb[part]}
-        for i, h in enumerate(hitA):
-            if not h and feasible_with(GA[i][0], GA[i][1]):
-                return {"at": n, "what": f"from {n}: a path of the left side has no counterpart", "left": [(show(x), y) for x, y in TA[i]["key"]]}
-        for j, h in enumerate(hitB):
-            if not h and feasible_with(GB[j][0], GB[j][1]):
-                return {"at": n, "what": f"from {n}: a path of the right side has no counterpart", "right": [(show(x), y) for x, y in TB[j]["key"]]}
+        # Both systems are total and deterministic on their reachable states, so two related states always take a jointly satisfiable pair of
+        # paths - compared above.  A path that met no counterpart is therefore only taken from states the other side never reaches in this
+        # relation (a guard that ranges over integer states no run produces); it is a difference only when the other side has no way on at all.
+        if bool(TA) != bool(TB) and any(feasible_with(g[0], g[1]) for g in (GA or GB)):
+            return {"at": n, "what": f"from {n}: only one side has a way on", "left": len(TA), "right": len(TB)}
     return None
 
 
